@@ -757,6 +757,11 @@ func (r *Run) evalCall(env *SpecEnv, x ECall) SV {
 		v := r.eval(env, x.Args[0])
 		T := r.specTypeArg(env, x.Args[1])
 		return SV{t: r.unboxIface(T, v.t), T: T}
+	case "samearray":
+		// samearray(a, b): the two slices share their backing array
+		a := r.eval(env, x.Args[0])
+		b := r.eval(env, x.Args[1])
+		return SV{t: eq(app("Int", "sl_arr", a.t), app("Int", "sl_arr", b.t)), T: types.Typ[types.Bool]}
 	case "preexisting":
 		// preexisting(p): p is nil or was allocated before the function under verification was entered (objects held
 		// by informer caches and stores): the entry-state well-formedness of memory applies to it
@@ -770,7 +775,11 @@ func (r *Run) evalCall(env *SpecEnv, x ECall) SV {
 		// fresh(p): p was allocated during the call (not allocated in the old state)
 		v := r.eval(env, x.Args[0])
 		wmOld := r.heapGet(env.old, r.eng.heapKeyAlloc())
-		return SV{t: app("Bool", ">", v.t, wmOld), T: types.Typ[types.Bool]}
+		vt := v.t
+		if vt.Sort == "Slice" {
+			vt = app("Int", "sl_arr", vt)
+		}
+		return SV{t: app("Bool", ">", vt, wmOld), T: types.Typ[types.Bool]}
 	}
 	if pn, ok := pureNatives[id.Name]; ok {
 		var svs []SV
